@@ -249,6 +249,15 @@ Theorem intersection_error_depends_on_order_refuted :
 Proof. exact MergeProofsMore.intersection_error_depends_on_order. Qed.
 Print Assumptions intersection_error_depends_on_order_refuted.
 
+(** ... and the same holds for the union of services (service names): the finding is not specific to versions. *)
+Theorem union_error_depends_on_order_refuted :
+  exists a b c m,
+    wf_schema a = true /\ wf_schema b = true /\ wf_schema c = true /\
+    merge_slice Union [a; c; b] = Some m /\ merge_slice Union [a; b; c] = None /\
+    merge_slice_checked Union [a; c; b] = None /\ merge_slice_checked Union [a; b; c] = None.
+Proof. exact MergeProofsPairs.union_error_depends_on_order. Qed.
+Print Assumptions union_error_depends_on_order_refuted.
+
 (** Non-vacuity: two well-formed, closed versions that differ (a field removed, an argument made required,
     an output made nullable, an enum value dropped), their intersection, and a query with an argument, an
     enum value and a nested selection that is valid against it. *)
